@@ -52,6 +52,9 @@ func Workers() int {
 
 // Scale lets VERIF_SCALE shrink/grow case counts (used by selfcheck on mutants).
 func Scale(n int) int {
+	if n == 0 {
+		return 0
+	}
 	if s := os.Getenv("VERIF_SCALE"); s != "" {
 		if f, err := strconv.ParseFloat(s, 64); err == nil && f > 0 {
 			n = int(float64(n) * f)
